@@ -8,6 +8,7 @@ reference variables at all scopes) and a JSON list of operations interpreted aga
   setglobal/setstage set_global_variable / set_stage_variable
   setpglobal/setpstage  set_platform_global_variable / set_platform_stage_variable (platform explicit or None=active)
   add/update/delete  add_component / update_component (same id) / delete_component
+  setactive          configure_platform(P): queries that name no platform follow the active platform
   query              get_component_configuration(comp, platform, flavour) [+ scribble all over the returned dict]
 
 Oracle (differential relation named in the property's `observe_at`): after every step, for every component that exists
@@ -107,7 +108,7 @@ FLAVOURS = {
     "nodefault": dict(raw=False, include_default=False),
     "primitive": dict(raw=False, include_default=True, is_primitive=True, ignore_convert_errors=True),
 }
-MUTATORS = ["setvar", "delvar", "setopt", "delopt", "setglobal", "setstage", "setpglobal", "setpstage", "add",
+MUTATORS = ["setactive", "setvar", "delvar", "setopt", "delopt", "setglobal", "setstage", "setpglobal", "setpstage", "add",
             "update", "delete"]
 
 
@@ -199,7 +200,8 @@ def history(draw, max_ops=24, pool=POOL):
     nops = draw(st.one_of(st.integers(1, 8), st.integers(1, max_ops)))
     ops = []
     kinds = (["setvar"] * 3 + ["delvar"] * 2 + ["setopt"] * 3 + ["delopt"] + ["setglobal"] * 2 + ["setstage"] * 2 +
-             ["setpglobal"] * 2 + ["setpstage"] * 2 + ["add"] + ["update"] * 2 + ["delete"] + ["query"] * 4)
+             ["setpglobal"] * 2 + ["setpstage"] * 2 + ["add"] + ["update"] * 2 + ["delete"] + ["query"] * 4 +
+             ["setactive"])
 
     def target():
         if exists and draw(st.integers(0, 9)) < 9:
@@ -256,6 +258,9 @@ def history(draw, max_ops=24, pool=POOL):
             n = draw(st.sampled_from(VARS))
             ops.append([k, draw(st.integers(0, nstages - 1)), n, draw(_value(n)),
                         draw(st.sampled_from(platforms + [None] + platforms + [None, "N"]))])
+        elif k == "setactive":
+            # configure_platform(): queries that name no platform now mean another platform
+            ops.append([k, draw(st.sampled_from(platforms))])
         elif k == "add":
             absent = [c for c in pool if tuple(c) not in exists]
             cid = draw(st.sampled_from(absent)) if absent and draw(st.integers(0, 9)) < 9 else \
@@ -444,6 +449,8 @@ class History:
         for cid in self.ever:
             for p in self.platforms:
                 full[(cid, p)] = self.compare(step, op, cid, p, "full", spoil=True)
+            # "no platform named" = the active platform (through the configuration object that is its own route)
+            full[(cid, None)] = self.compare(step, op, cid, None, "full", spoil=True)
         self.description_untouched(step, op)
         return full
 
@@ -459,7 +466,13 @@ class History:
         if k not in MUTATORS:
             raise RuntimeError("harness: unknown op %r" % (op,))
         try:
-            if k == "setvar":
+            if k == "setactive":
+                if self.conf is not None:
+                    return "rejected:not-offered-by-the-configuration-object"
+                L.configure_platform(op[1])
+                self.active = op[1]
+                self._fresh_key = None             # the from-scratch object is rebuilt for the new active platform
+            elif k == "setvar":
                 L.set_component_variable(cid, op[2], op[3])
             elif k == "delvar":
                 L.delete_component_variable(cid, op[2])
